@@ -3,8 +3,8 @@ CONSTANTS
   Objects <- MCObjects
   Perms <- MCPerms
   CacheByName = FALSE
-  UnsortedSets = TRUE
-  PinEncoder = FALSE
+  UnsortedSets = FALSE
+  PinEncoder = TRUE
   MaxSteps = 5
 INVARIANT Deterministic
 CHECK_DEADLOCK FALSE
